@@ -309,6 +309,12 @@ func (s *Solver) Check(f *sym.Factory, extra *sym.Term, timeoutMs int) Result {
 		s.send("(push 1)")
 		s.send("(assert " + s.ref(extra) + ")")
 	}
+	if d := os.Getenv("GOSYM_DUMP_ALL"); d != "" {
+		n := atomic.AddInt64(&dumpCounter, 1)
+		if n <= 3000 {
+			os.WriteFile(fmt.Sprintf("%s/q-%d.smt2", d, n), []byte(s.Script(f, extra)), 0o644)
+		}
+	}
 	s.send("(check-sat)")
 	res := Unknown
 	sawError := false
